@@ -209,19 +209,32 @@ def run(ctx):
                     o.violated(rem, s, "absent element returns silently: removing an absent element must raise")
 
     with ctx.obligation("C20.4", "remove: swap-with-last under the guard position != len(list) after the pop", floor=3) as o:
-        pops = [s for s in stmts if isinstance(s, (ast.Assign, ast.AnnAssign)) and match(pat(f"{selfL}.pop()"), s.value) is not None]
+        pops = [s for s in stmts if isinstance(s, (ast.Assign, ast.AnnAssign, ast.Expr)) and match(pat(f"{selfL}.pop()"), s.value) is not None]
         if len(pops) != 1 or lookup is None or lookup_kind not in ("pop", "getitem", "del"):
             o.undecided("remove is not {pos = map.pop(e); last = list.pop(); guarded swap}", rem)
             return
         pop_st = pops[0]
-        last = txt(pop_st.targets[0] if isinstance(pop_st, ast.Assign) else pop_st.target)
+        read_last_form = isinstance(pop_st, ast.Expr)
+        if read_last_form:
+            # `last = L[-1]` ... `L.pop()` : the tail is read first and dropped afterwards
+            reads = [s for s in stmts if isinstance(s, (ast.Assign, ast.AnnAssign)) and (match(pat(f"{selfL}[-1]"), s.value) is not None
+                                                                                       or match(pat(f"{selfL}[len({selfL}) - 1]"), s.value) is not None)]
+            if len(reads) != 1:
+                o.undecided("the tail element is dropped with list.pop() but never read into a local", rem, pop_st)
+                return
+            last = txt(reads[0].targets[0] if isinstance(reads[0], ast.Assign) else reads[0].target)
+            if not cfg.dominates(reads[0], pop_st):
+                o.undecided("tail read does not precede the pop", rem, pop_st)
+                return
+        else:
+            last = txt(pop_st.targets[0] if isinstance(pop_st, ast.Assign) else pop_st.target)
         pos = None
         if lookup_kind in ("pop", "getitem") and isinstance(lookup, (ast.Assign, ast.AnnAssign)):
             pos = txt(lookup.targets[0] if isinstance(lookup, ast.Assign) else lookup.target)
         if pos is None:
             o.undecided("position of the removed element is not bound to a local", rem, lookup)
             return
-        o.holds(rem, pop_st, f"{last} = list.pop() takes the final slot")
+        o.holds(rem, pop_st, f"the final slot is taken off the list (`{txt(pop_st)}`), its element is `{last}`")
         st_list = [s for s in stmts if isinstance(s, ast.Assign) and len(s.targets) == 1 and isinstance(s.targets[0], ast.Subscript)
                    and txt(s.targets[0].value) == selfL]
         st_map = [s for s in stmts if isinstance(s, ast.Assign) and len(s.targets) == 1 and isinstance(s.targets[0], ast.Subscript)
@@ -252,9 +265,15 @@ def run(ctx):
         # guard
         guards = [a for a in par.ancestors(sl) if isinstance(a, ast.If)]
         guards_m = [a for a in par.ancestors(smp) if isinstance(a, ast.If)]
-        if not guards and not guards_m:
-            o.violated(rem, sl, "swap stores are unguarded: removing the element in the final slot indexes past the end (IndexError) and re-inserts it into the map")
+        if not guards_m:
+            # when the removed element sits in the final slot, last IS the removed element: the unguarded map store
+            # re-inserts the key that the lookup has just popped
+            o.violated(rem, smp, f"`{txt(smp)}` runs unguarded: when the removed element is in the final slot (last-inserted or only member) `{last}` is the removed element "
+                                 "itself, so its key is re-inserted into the map - membership stays true, re-adding is a no-op, a second remove does not raise"
+                                 + ("" if read_last_form else "; and the list store indexes past the end (IndexError)"))
             return
+        if read_last_form and not guards:
+            guards = guards_m  # the list self-assignment L[pos] = L[-1] is harmless for the final slot
         if len(guards) != 1 or guards != guards_m or par.branch_of(sl, guards[0]) != par.branch_of(smp, guards[0]):
             o.undecided("guard structure of the swap not recognised", rem, sl)
             return
